@@ -45,6 +45,10 @@ type config struct {
 	IgnQ        bool     `json:"client_ignore_querylog"`
 	IgnS        bool     `json:"client_ignore_statistics"`
 	RefuseAny   bool     `json:"refuse_any"`
+	// Reloaded: the persistent clients went through a configuration write and a
+	// restart (clients section encoded, decoded, container initialised from it)
+	// before the request.
+	Reloaded bool `json:"clients_saved_and_reloaded,omitempty"`
 }
 
 type request struct {
@@ -230,6 +234,16 @@ func (e *env) runConfig(cf *config, reqs []request) {
 	}
 	defer a.Close()
 	findClient, shouldCount = home.VerifClientsContainer(a.Clients, a.Server)
+	if cf.Reloaded {
+		// The configuration is the clients section as the running instance
+		// writes it; the restarted instance must ignore exactly the same clients.
+		fc, scnt, doc, rerr := home.VerifClientsReloaded(a.Clients, a.Server, sp.ClientDHCP)
+		if rerr != nil {
+			c.Violation("clients-section-not-reloadable", fmt.Sprintf("%v\nwritten section:\n%s", rerr, doc), caseC{Conf: *cf})
+			return
+		}
+		findClient, shouldCount = fc, scnt
+	}
 	if cf.Anon == "on-by-api" {
 		code, body := qh.call(http.MethodPut, "/control/querylog/config/update", `{"enabled":true,"anonymize_client_ip":true,"interval":86400000,"ignored":`+jsonStr(append([]string{}, cf.QLogIgnore...))+`}`)
 		if code != http.StatusOK {
@@ -298,6 +312,9 @@ func (e *env) runConfig(cf *config, reqs []request) {
 		}
 		tag := func() string {
 			t := "client:" + cf.Client
+			if cf.Reloaded {
+				t = "client-after-save-and-restart:" + cf.Client
+			}
 			if nameIgnQ || nameIgnS {
 				t = "name"
 			}
@@ -400,7 +417,7 @@ func run(c *lib.Ctx) {
 			igs = append(igs, ig{nil, l}, ig{l, l})
 		}
 	}
-	for _, g := range igs {
+	for gi, g := range igs {
 		for _, anon := range []string{"off", "on", "on-by-api"} {
 			for _, cl := range []string{"none", "ip", "cidr", "mac", "clientid", "ip6zone", "clientid-behind-ip"} {
 				for _, flags := range [][2]bool{{false, false}, {true, false}, {false, true}, {true, true}} {
@@ -411,17 +428,26 @@ func run(c *lib.Ctx) {
 						if ra && (cl != "none" && cl != "ip") {
 							continue
 						}
-						idx++
-						if !c.Mine(idx) {
-							continue
-						}
-						if c.Expired() {
-							return
-						}
-						cf := config{QLogIgnore: g.q, StatsIgnore: g.s, Anon: anon, Client: cl, IgnQ: flags[0], IgnS: flags[1], RefuseAny: ra}
-						e.runConfig(&cf, reqs)
-						if idx%97 == 0 {
-							c.Sample(map[string]any{"config": cf, "requests": len(reqs), "first": reqs[0]})
+						for _, reloaded := range []bool{false, true} {
+							// Without persistent clients, and for the ANY variants, the
+							// reloaded clients section adds nothing; the name lists do not
+							// pass through it, so three list pairs (none, query log only,
+							// statistics only) suffice for it.
+							if reloaded && (cl == "none" || ra || gi > 2) {
+								continue
+							}
+							idx++
+							if !c.Mine(idx) {
+								continue
+							}
+							if c.Expired() {
+								return
+							}
+							cf := config{QLogIgnore: g.q, StatsIgnore: g.s, Anon: anon, Client: cl, IgnQ: flags[0], IgnS: flags[1], RefuseAny: ra, Reloaded: reloaded}
+							e.runConfig(&cf, reqs)
+							if idx%97 == 0 {
+								c.Sample(map[string]any{"config": cf, "requests": len(reqs), "first": reqs[0]})
+							}
 						}
 					}
 				}
@@ -890,7 +916,7 @@ func main() {
 				"distinct_cells":      m.Distinct["cells"],
 				"positives_logged":    m.Counters["positives_logged"],
 				"positives_counted":   m.Counters["positives_counted"],
-				"rule":                "13 (query-log ignore list, statistics ignore list) pairs over {none, plain name, ||rule^, wildcard, root |.^} x anonymisation {off, on at start, switched on through the config API} x persistent client kind {none, IP, CIDR, MAC via DHCP, ClientID} x ignore flags x ANY-refusal; each x 43 requests (4 name spellings x 5 client addresses incl. IPv6 and 4-in-6 x with/without ClientID, ANY queries, root query); after every single request the memory buffer (API), the flushed querylog.json, the API again and /control/stats are read and then cleared. Oracle: ignored name/client => nothing in its subsystem; anonymisation on => every address has its last 16/80 bits zero; restart pass: entries recorded earlier are hidden when the current configuration ignores their name/client. distinct_nontrivial = distinct (configuration, request) where something must be suppressed or anonymised",
+				"rule":                "13 (query-log ignore list, statistics ignore list) pairs over {none, plain name, ||rule^, wildcard, root |.^} x anonymisation {off, on at start, switched on through the config API} x persistent client kind {none, IP, CIDR, MAC via DHCP, ClientID} x ignore flags x {clients as configured, clients section written by the running instance (forConfig, YAML) and loaded by a restarted clients container} x ANY-refusal; each x 43 requests (4 name spellings x 5 client addresses incl. IPv6 and 4-in-6 x with/without ClientID, ANY queries, root query); after every single request the memory buffer (API), the flushed querylog.json, the API again and /control/stats are read and then cleared. Oracle: ignored name/client => nothing in its subsystem; anonymisation on => every address has its last 16/80 bits zero; restart pass: entries recorded earlier are hidden when the current configuration ignores their name/client. distinct_nontrivial = distinct (configuration, request) where something must be suppressed or anonymised",
 			}
 		},
 		Assumptions: []string{"ignore-rule matching delegated to urlfilter", "a 4-in-6 source address is the same client as its IPv4 form", "entries recorded anonymised cannot be attributed to a client afterwards: the restart pass for client flags runs with anonymisation off"},
